@@ -17,3 +17,5 @@ import os
 if os.environ.get("NAMES"):
     for r in res:
         for o in r["obligations"]: print("  ", o["status"], o["name"], o["paths"])
+for r in res:
+    if r.get("unreached"): print("UNREACHED", r["label"], r["unreached"])
